@@ -183,7 +183,7 @@ pub assume_specification<T: PartialEq> [<[T]>::contains] (s: &[T], x: &T) -> (r:
     ensures r == s@.contains(*x);
 #[verifier::external_body]
 pub fn vx_unreachable() -> !
-    requires false, // OBL:C13.fs_worker.a_watcher_exists_whenever_paths_are_applied
+    requires false, // OBL:C13+C01.fs_worker.a_watcher_exists_whenever_paths_are_applied
 { unimplemented!() }
 // std::mem::discriminant on the watcher kind: which variant, not its payload
 pub open spec fn watcher_variant(w: Watcher) -> int { match w { Watcher::Native => 0, Watcher::Poll(_) => 1 } }
